@@ -8,6 +8,19 @@ HERE = os.path.dirname(os.path.dirname(os.path.abspath(__file__)))
 HOOK_COMMITS = ["7e56da8"]
 
 CLAIMED = {
+    "C30": dict(
+        engine="simrt", category="exploration", design_ref="DESIGN.md section 4 (C30), 3.3",
+        technique="deterministic simulation of thread interleavings: real pthreads serialised by a scheduler behind the TSan compiler ABI, scripted preemption at instrumented memory accesses (race-directed from a traced dry run + random), quarantine heap checker",
+        text=("libocca (ENABLE_SHARABLE_DEVICE=ON, compiled with -fsanitize=thread but linked against our own runtime) runs 2-16 simulated "
+              "threads that copy and drop handles to shared objects, allocate and free, use pools, build and run kernels on one device. "
+              "Exactly one thread runs at a time; every instrumented memory access, atomic and mutex operation is a scheduling point, so a "
+              "preemption between a load and a store is expressible without editing libocca. Schedules come from a traced dry run (stop A "
+              "at its access to X, run B past its access to X) and from random preemption points; oracles are outcome based: heap checker "
+              "(double free, use after free, out of block), crashes, and after the join handle states, contents, live-object counts and "
+              "memoryAllocated() against the sequential reference model. Failures are minimised to 1-3 context switches and replayed exactly."),
+        note=("Preemption only inside instrumented libocca code (out-of-line libstdc++/libc code is atomic). Each thread uses its own handle "
+              "variables. maxMemoryAllocated() is not judged. Sampling of schedules, not enumeration."),
+    ),
     "C01": dict(
         engine="handlesim", category="exploration", design_ref="DESIGN.md section 4 (C01), 3.2",
         technique="deterministic simulation of handle histories (single caller): seeded operation sequences on the real library under ASan next to an executable reference model, observed after every operation",
